@@ -150,6 +150,8 @@ def _main():
                         continue          # covering sample
                     th = example.theory()
                     th.order, th.xif, th.n3lo_ad_variation = order, xif, var
+                    if order == (3, 0):
+                        th.use_fhmruvv = None          # an Optional[bool] field left unset
                     if scheme == "msbar":
                         th.heavy.masses_scheme = QuarkMassScheme.MSBAR
                         th.heavy.masses.c.scale, th.heavy.masses.b.scale, th.heavy.masses.t.scale = 1.5, np.float64(4.5), 170.0
@@ -226,7 +228,14 @@ def _main():
         label: str
         flags: typing.Tuple[bool, bool]
 
+    @dataclasses.dataclass
+    class WithOptionalFlags(dictlike.DictLike):
+        flag: typing.Optional[bool] = None
+        label: typing.Optional[str] = None
+        count: typing.Optional[int] = None
+
     CASES = [
+        ("WithOptionalFlags[all None]", WithOptionalFlags()), ("WithOptionalFlags[set]", WithOptionalFlags(False, "x", 0)),
         ("Inner", Inner(1.5, (2, 3))), ("Inner[numpy scalars in the tuple]", Inner(np.float64(1.5), (np.int64(2), np.int64(3)))),
         ("WithArray[1d]", WithArray(np.array([1.0, 2.0, np.nan]), "v")), ("WithArray[2d]", WithArray(np.arange(6.0).reshape(2, 3), "m")),
         ("WithOptional[None]", WithOptional(Colour.RED, Inner(0.5, (1, 2)))), ("WithOptional[set]", WithOptional(Colour.BLUE, Inner(0.5, (1, 2)), 3.5, [(1.0, 2), (3.0, 4)])),
